@@ -46,6 +46,32 @@ mod verif_standins {
         let sum = Message::new([Scalar::from(7); N]).commit(&p, BlindingFactor::from_scalar(r1 + r2)).to_element();
         assert!(c1 + c2 == sum, "STANDIN pedersen.Commitment::new: not homomorphic");
     }
+    /// C12: h and every generator of a parameter set enter a challenge derived from it (order included)
+    fn check_challenge<G: Group<Scalar = Scalar> + crate::proofs::ChallengeInput, const N: usize>() where PedersenParameters<G, N>: crate::proofs::ChallengeInput {
+        use crate::proofs::ChallengeBuilder;
+        let mut rng = rng();
+        let p = PedersenParameters::<G, N>::new(&mut rng);
+        let q = PedersenParameters::<G, N>::new(&mut rng);
+        let chal = |x: &PedersenParameters<G, N>| ChallengeBuilder::new().with(x).finish().to_scalar();
+        let base = chal(&p);
+        assert_eq!(base, chal(&PedersenParameters::from_generators(*p.h(), *p.gs())), "STANDIN pedersen parameters challenge: not deterministic");
+        assert_ne!(base, chal(&PedersenParameters::from_generators(*q.h(), *p.gs())), "STANDIN pedersen parameters challenge: h does not enter the challenge (N = {})", N);
+        for i in 0..N {
+            let mut gs = *p.gs();
+            gs[i] = q.gs()[i];
+            assert_ne!(base, chal(&PedersenParameters::from_generators(*p.h(), gs)), "STANDIN pedersen parameters challenge: generator g[{}] of {} does not enter the challenge", i, N);
+        }
+        if N >= 2 {
+            let mut gs = *p.gs();
+            gs.swap(0, N - 1);
+            assert_ne!(base, chal(&PedersenParameters::from_generators(*p.h(), gs)), "STANDIN pedersen parameters challenge: order of the generators does not enter the challenge");
+        }
+    }
+    #[test] fn standin_pedersen_params_challenge() {
+        check_challenge::<G1Projective, 1>(); check_challenge::<G1Projective, 2>(); check_challenge::<G1Projective, 5>();
+        check_challenge::<G2Projective, 1>(); check_challenge::<G2Projective, 3>();
+    }
+
     #[test] fn standin_pedersen_commitment() {
         check::<G1Projective, 1>(); check::<G1Projective, 2>(); check::<G1Projective, 3>(); check::<G1Projective, 5>();
         check::<G2Projective, 1>(); check::<G2Projective, 3>();
